@@ -104,7 +104,7 @@ def transparency_case(seed, idx, tier):
     res = CaseResult()
     dfsbin = BIN['san']['dfs']
     with Scratch('c10') as tmp:
-        kind = ['single', 'inter', 'hinted', 'mmb', 'flux', 'tiny', 'aligned', 'multi', 'hostile', 'blank-side'][idx % 10]
+        kind = ['single', 'inter', 'hinted', 'mmb', 'flux', 'tiny', 'aligned', 'multi', 'hostile', 'blank-side', 'ragged'][idx % 11]
         surfaces, drives = None, None
         if kind in ('single', 'inter', 'aligned', 'multi', 'tiny'):
             from ..dfsutil import make_image
@@ -149,6 +149,26 @@ def transparency_case(seed, idx, tier):
             dm.mmb_file(plain, slots)
             raw = open(plain, 'rb').read()
             surfaces, drives = None, None
+        elif kind == 'ragged':
+            # the image ends in the middle of a sector that a file (or a dump-sector request) needs
+            spt = rng.choice([10, 18])
+            s = dm.gen_surface(rng, variant='acorn', spt=spt, nfiles=rng.randint(2, 8), style='packed', maxlen_sectors=6)
+            ents = [e for e in s.volumes[0].cat.entries if e.length > 256]
+            img_ = s.image()
+            if ents:
+                e = rng.choice(ents)
+                cut_sector = e.start + rng.randrange(0, e.nsectors)
+            else:
+                cut_sector = rng.randrange(3, 30)
+            cut = cut_sector * 256 + rng.choice([1, 100, 255, 128])
+            raw = img_[:cut]
+            plain = os.path.join(tmp, 'x.' + ('ssd' if spt == 10 else 'sdd'))
+            write_file(plain, raw)
+            ragged_cmds = [['dump-sector', '0', str(cut_sector // spt), str(cut_sector % spt)],
+                           ['dump-sector', '0', str((cut_sector - 1) // spt), str((cut_sector - 1) % spt)],
+                           ['dump-sector', '0', str((cut_sector + 1) // spt), str((cut_sector + 1) % spt)]]
+            for e2 in s.volumes[0].cat.entries[:6]:
+                ragged_cmds.append([rng.choice(['type', 'dump', 'list']), ':0.%s.%s' % (e2.dir, e2.name)])
         elif kind == 'hostile':
             # transparency also holds for images the tool rejects or half accepts
             b = hostile.base_image(rng, None, small=True)
@@ -214,7 +234,9 @@ def transparency_case(seed, idx, tier):
         files = {os.path.basename(gzpath): gzdata} if len(gzdata) < 2000000 else {'how.txt': how.encode()}
         res.seen('transparency_kinds', kind)
         res.seen('gzip_levels', level)
-        if surfaces:
+        if kind == 'ragged':
+            cmds = ragged_cmds + [['cat'], ['free']]
+        elif surfaces:
             cmds = commands_for(rng, surfaces, drives, 6)
         elif kind == 'mmb':
             cmds = [['cat', '0'], ['show-titles', '0'], ['dump-sector', '0', '79', '9']]
@@ -273,6 +295,10 @@ def damage_case(seed, idx, tier):
             variants.append(('bitflip', bit, bytes(g)))
         variants.append(('not-gzip', 0, raw))
         variants.append(('not-gzip', 1, b'\x1f\x8b' + raw))
+        # other compressed formats are not gzip either: a zlib (RFC 1950) stream, a raw deflate stream
+        variants.append(('not-gzip', 2, zlib.compress(raw, 9)))
+        co = zlib.compressobj(9, zlib.DEFLATED, -15)
+        variants.append(('not-gzip', 3, co.compress(raw) + co.flush()))
         gp = os.path.join(tmp, 'v.ssd.gz')
         for how, n, data in variants:
             ref = reference(data)
